@@ -9,9 +9,9 @@ import (
 
 var (
 	lgLabels = []string{"c", "d", "a", "zz", "lvl", "n"}
-	lgValues = []string{"x", "y", "xy", "", "5", "2.5", "10", "1s", "250ms", "5KB", "10.0.0.1", "abc", "warn", "1m30s", "1KiB", "10.0.0.200"}
+	lgValues = []string{"x", "y", "xy", "", "5", "2.5", "10", "1s", "250ms", "5KB", "10.0.0.1", "abc", "warn", "1m30s", "1KiB", "10.0.0.200", "1700000000", "17000", "-1700", "1700000000000"}
 	lgWords  = []string{"error", "info", "x", "xy", "a=1", `b="q r"`, "lvl=warn", "10.0.0.1", "192.168.1.20", "999.1.1.1", "1.2.3.4.5",
-		"42", "2.5", "1s", "5KB", "\xff", "cafe1.2.3.4", "at 12:30:45", "n=5", "d=250ms", "GET /a/b", "c=xy", "zz=", "ip=10.0.0.200", "-"}
+		"42", "2.5", "1s", "5KB", "\xff", "cafe1.2.3.4", "at 12:30:45", "n=5", "d=250ms", "GET /a/b", "c=xy", "zz=", "ip=10.0.0.200", "-", "c=1700000000", "n=17000", "lvl=1700000000000"}
 	lgNeedles = []string{"x", "xy", "err", "info", "", "a=", "10.0", "=", "q r", "\xff", " "}
 	lgNums    = []struct {
 		text string
@@ -134,8 +134,11 @@ func genTpl(r *rand.Rand, allowFail bool) []TplPart {
 		case k == 7:
 			t = append(t, TplPart{Kind: "ts"})
 		default:
-			if allowFail && r.Intn(2) == 0 {
+			if allowFail && r.Intn(3) == 0 {
 				t = append(t, TplPart{Kind: "fail"})
+			} else if allowFail {
+				// fails or not depending on the record's label value
+				t = append(t, TplPart{Kind: "epoch", Text: pick(r, lgLabels)})
 			} else {
 				t = append(t, TplPart{Kind: "lit", Text: "."})
 			}
